@@ -20,6 +20,7 @@ RULE = (
     "(2-3 release times, discrete and continuous) x scheme x run length x output period; non-trivial = at least 2 release times inside the window and a "
     "frame hand-over inside the run; lattice points distinct by construction"
 )
+RULE += " Beyond the lattice (chosen scenarios, not enumerated): vertical advection (w mirrored, depth compared) and a reference time in another century in one slice."
 ASSUMPTIONS = ["scalar forcing under reversal excluded (its timing convention is fixed in C03)", "diffusion off", "frames and releases on the model time grid"]
 
 S0 = world.tosec("2020-07-01T12:00:00")
